@@ -299,6 +299,10 @@ func verifyDelayPeriodPassed(ctx sdk.Context, store storetypes.KVStore, proofHei
 
 		currentTimestamp := uint64(ctx.BlockTime().UnixNano())
 		validTime := processedTime + delayTimePeriod
+		if validTime < processedTime {
+			// the sum does not fit in 64 bits: the delay period can never have passed
+			return errorsmod.Wrapf(ErrDelayPeriodNotPassed, "delay time period %d overflows when added to processed time %d", delayTimePeriod, processedTime)
+		}
 
 		// NOTE: delay time period is inclusive, so if currentTimestamp is validTime, then we return no error
 		if currentTimestamp < validTime {
@@ -315,6 +319,10 @@ func verifyDelayPeriodPassed(ctx sdk.Context, store storetypes.KVStore, proofHei
 		}
 
 		currentHeight := clienttypes.GetSelfHeight(ctx)
+		if processedHeight.GetRevisionHeight()+delayBlockPeriod < delayBlockPeriod {
+			// the sum does not fit in 64 bits: the delay period can never have passed
+			return errorsmod.Wrapf(ErrDelayPeriodNotPassed, "delay block period %d overflows when added to processed height %s", delayBlockPeriod, processedHeight)
+		}
 		validHeight := clienttypes.NewHeight(processedHeight.GetRevisionNumber(), processedHeight.GetRevisionHeight()+delayBlockPeriod)
 
 		// NOTE: delay block period is inclusive, so if currentHeight is validHeight, then we return no error
